@@ -238,7 +238,9 @@ def main():
     for fn in files:
       if fn.endswith('.rs'):
         s = open(os.path.join(root, fn), errors='replace').read()
-        if 'thread_local!' in s or '#[thread_local]' in s or 'LocalKey' in s:
+        # thread-local state, or code that looks at the identity / name of the thread it runs on: a pooled OS
+        # thread would carry the one over and cannot take the other
+        if 'thread_local!' in s or '#[thread_local]' in s or 'LocalKey' in s or '.name()' in s or 'Builder::new().name(' in s or '.name(' in s and 'thread::Builder' in s:
           tl = True
   with open(os.path.join(dest, '.thread_local'), 'w') as f:
     f.write('1' if tl else '0')
